@@ -39,13 +39,20 @@ def shapes(tier, seed):
     out.append(('toolong', 'header'))
     out.append(('toolong', 'query'))
     out.append(('flags', 'none', 'all', True))
+    # a blank Authorization header next to a complete query carrier (= both carriers) and on its own (= header carrier without algorithm)
+    out.append(('flags', 'query+blank', 'all', True))
+    out.append(('flags', 'none+blank', 'all', True))
     out.append(('flags', 'both', 'all', True))
     out.append(('flags', 'header', 'all', False))     # Authorization header without any date header
     return out
 
 
+def base_of(carrier):
+    return carrier.split('+')[0]
+
+
 def subset(carrier, which):
-    names = flag_names(carrier)
+    names = flag_names(base_of(carrier) if base_of(carrier) in ('header', 'query') else 'header')
     if which == 'late':
         return [n for n in names if n in ('date', 'expired', 'future', 'arity', 'arity_more', 'scope_date', 'scope_region', 'scope_service', 'scope_term',
                                           'provider', 'signature')]
@@ -99,7 +106,7 @@ def run_shape(prog, shape, tier, seed, res):
             flags[n] = ctx.fresh_bool('f_' + n)
         if 'expired' in flags and 'future' in flags:
             ctx.assume(z3.Not(z3.And(flags['expired'], flags['future'])))
-        D = Defective(m, ctx, carrier, flags, date_header, sig_variant=sig_variant)
+        D = Defective(m, ctx, base_of(carrier), flags, date_header, sig_variant=sig_variant, blank_authz=('' if carrier.endswith('+blank') else None))
         prov = A.Provider(D.result)
         r, polls = run(m, D.req, 'us-east-1', 'service', prov, D.server, D.reqs)
         return D, flags, r, prov
@@ -123,8 +130,11 @@ def run_shape(prog, shape, tier, seed, res):
             if name == 'carrier':
                 if carrier == 'none':
                     rules.append((True, 'MissingAuthenticationToken', [b'Request is missing Authentication Token']))
-                elif carrier == 'both':
+                elif carrier in ('both', 'query+blank'):
                     rules.append((True, 'SignatureDoesNotMatch', [b'']))
+                continue
+            if name == 'algorithm' and carrier == 'none+blank':
+                rules.append((True, 'IncompleteSignature', [b"Unsupported AWS 'algorithm'"]))
                 continue
             if name == 'algorithm':
                 ekind = 'IncompleteSignature' if carrier in ('header', 'both') else 'MissingAuthenticationToken'
@@ -172,10 +182,12 @@ def expected_concrete(carrier, date_header, on):
         if name == 'carrier':
             if carrier == 'none':
                 return 'MissingAuthenticationToken', [b'Request is missing Authentication Token'] if not (on & {'path', 'query'}) else None
-            if carrier == 'both':
+            if carrier in ('both', 'query+blank'):
                 if not (on & {'path', 'query'}):
                     return 'SignatureDoesNotMatch', [b'']
             continue
+        if name == 'algorithm' and carrier == 'none+blank':
+            return 'IncompleteSignature', [b"Unsupported AWS 'algorithm'"]
         hit = False
         if name == 'missing':
             hit = bool(on & {'missing_credential', 'missing_signature', 'missing_signedheaders', 'missing_date'}) or (carrier == 'header' and not date_header)
